@@ -243,13 +243,15 @@ def run(R):
         rk0 = [n for n, k in cfg_nodes_with_call(tp, lambda k: callee_last(k) == 'read_nonblocking')]
         c.need(len(rk0) == 1, 'try_read_prompt: the read was not found')
         import re as _re
-        bound = [a for a, v in loop_entry_conditions(gt, rk0[0]) if v and _re.match(r'^[A-Za-z_]\w* < [A-Za-z_]\w*$', a)]
+        bound = [a for a, v in loop_entry_conditions(gt, rk0[0]) if v and _re.match(r'^[A-Za-z_]\w* < .+$', a)]
         okb = len(bound) == 1
-        ev_, tv_ = bound[0].split(' < ') if okb else (None, None)
+        ev_, tv_ = bound[0].split(' < ', 1) if okb else (None, None)
         if okb:
-            td = [s2 for s2 in iter_nodes(tp.node) if isinstance(s2, ast.Assign) and tv_ in assigned_names(s2)]
-            okb = len(td) == 1 and any(isinstance(x, ast.Name) and x.id == tp.params[1] for x in ast.walk(td[0].value)) and \
-                not any(p is loops[0] for p in parent_chain(td[0]))
+            # the total: an expression over the multiplier parameter (possibly through a local fixed before the loop), never changed in the loop
+            tnames = set(x.id for x in ast.walk(ast.parse(tv_, mode='eval')) if isinstance(x, ast.Name))
+            td = [s2 for s2 in iter_nodes(tp.node) if isinstance(s2, ast.Assign) and (set(assigned_names(s2)) & tnames)]
+            derived = tp.params[1] in tnames or any(any(isinstance(x, ast.Name) and x.id == tp.params[1] for x in ast.walk(d.value)) for d in td)
+            okb = derived and not any(any(p is loops[0] for p in parent_chain(d)) for d in td) and ev_ not in tnames
         c.check(bool(okb), tp, loops[0], 'the read loop runs while <elapsed> < <total timeout derived from the multiplier, fixed before the loop>',
                 witness=str(bound), kind='path', tag='loop-bound')
         upd = [s2 for s2 in ast.walk(loops[0]) if isinstance(s2, ast.Assign) and ev_ in assigned_names(s2)]
